@@ -366,6 +366,95 @@ class SleepReeval(paths.Rule):
         return st
 
 
+DRV = "src/engine/engine_collision_driver.c"
+
+
+def wake_prune(res):
+    """R-WAKE-PRUNE: a candidate pair may be discarded for sleep reasons only when neither side is awake — otherwise an awake
+    tree touching a sleeping one produces no contact and mj_wakeCollision has nothing to see.  Decided by finite evaluation:
+    every pruning condition of the collision driver that compares the sleep states of TWO objects with mjS_* enumerators is
+    evaluated for all 3x3 assignments of {mjS_STATIC, mjS_ASLEEP, mjS_AWAKE} (every other conjunct taken as true); no
+    assignment with an awake side may prune."""
+    import itertools
+    from .. import norm, linform as _lf
+    u = engine.unit(DRV)
+    F = pipeline.Flattener(u)
+    states = {n: v for n, v in F.enum.items() if n in ("mjS_STATIC", "mjS_ASLEEP", "mjS_AWAKE")}
+    if len(states) != 3:
+        raise AnalysisError("mjtSleepState enumerators not found")
+    res.rule("R-WAKE-PRUNE", "no pair with an awake side is discarded by a sleep-state test of the collision driver", floor=1)
+    n = 0
+    for name, fn0 in sorted(u.funcs.items()):
+        if (fn0.get("file") or u.tu) != u.tu:
+            continue
+        if not any(x.get("k") == "DeclRefExpr" and (x.get("ref") or {}).get("n") in states for x in cir.walk(fn0)):
+            continue
+        fn = norm.canon(u, name, propagate=True)
+        body = cir.body(fn)
+        defs = _lf.single_defs(fn)
+
+        def sleep_vars(e):
+            """texts of the sub-expressions that are compared with an mjS_* enumerator"""
+            out = set()
+            for y in cir.walk(e):
+                if y.get("k") == "BinaryOperator" and y.get("op") in ("==", "!="):
+                    a, b = (cir.strip(k_) for k_ in cir.kids(y))
+                    for v, c in ((a, b), (b, a)):
+                        if c is not None and c.get("k") == "DeclRefExpr" and (c.get("ref") or {}).get("n") in states and v is not None:
+                            out.add(cir.text(v))
+            return out
+        for st in cir.walk(body):
+            if st.get("k") not in ("ReturnStmt", "ContinueStmt"):
+                continue
+            if st.get("k") == "ReturnStmt" and cir.kids(st) and cir.text(cir.kids(st)[0]) not in ("0",):
+                continue
+            gs = norm.guards(body, st) or []
+            # resolve locals in the atoms
+            atoms = []
+            for c_, pol in gs:
+                e = c_
+                for _r in range(3):
+                    vs = [y for y in cir.walk(e) if y.get("k") == "DeclRefExpr" and (y.get("ref") or {}).get("n") in defs]
+                    if not vs:
+                        break
+                    e = norm.substitute(e, {y["ref"]["id"]: defs[y["ref"]["n"]] for y in vs})
+                atoms.append((e, pol))
+            # only discards whose innermost guard is the sleep test itself (a later, unrelated rejection merely sits in
+            # the branch where the sleep test did not fire)
+            if not atoms or not sleep_vars(atoms[-1][0]):
+                continue
+            svars = sorted(set().union(*[sleep_vars(e) for e, _p in atoms]) if atoms else set())
+            if len(svars) != 2:
+                continue
+            n += 1
+            bad = None
+            for va, vb in itertools.product(states.values(), repeat=2):
+                env = {svars[0]: va, svars[1]: vb}
+                pruned = True
+                for e, pol in atoms:
+                    if not sleep_vars(e):
+                        continue
+                    v = F.ceval(e, env)
+                    if v is None:
+                        raise AnalysisError(f"{name}: sleep pruning condition `{cir.text(e)[:80]}` cannot be evaluated")
+                    if bool(v) != pol:
+                        pruned = False
+                        break
+                if pruned and states["mjS_AWAKE"] in (va, vb):
+                    inv = {v_: k_ for k_, v_ in states.items()}
+                    bad = (inv[va], inv[vb])
+                    break
+            key = f"{name}:{'/'.join(svars)[:60]}"
+            if bad:
+                res.bad("R-WAKE-PRUNE", key, DRV, st.get("line"),
+                        f"{name} discards the pair when {svars[0]} is {bad[0]} and {svars[1]} is {bad[1]}: a side is awake, so the "
+                        f"contact that would wake the sleeping side is never generated")
+            else:
+                res.ok("R-WAKE-PRUNE", key, {"line": st.get("line")})
+    if n == 0:
+        raise AnalysisError(f"{DRV}: no pruning condition on the sleep states of two objects found")
+
+
 def run(res, tier):
     us = engine.unit(SLEEP)
     uf = engine.unit(FWD)
@@ -392,6 +481,7 @@ def run(res, tier):
         raise AnalysisError("R-RESULT-USED lost instances: fewer result obligations than wake hooks")
     res.rule("R-WHO-WRITES", "d->tree_asleep written only by engine_sleep.c and the reset path", floor=7)
     who_writes(res, g)
+    wake_prune(res)
     res.rule("R-FILTER", "qvel/qpos writes of mj_advance go through the awake index lists under the sleep filter", floor=5)
     # statement-level static helpers of mj_advance are expanded: extracting a block into a helper changes nothing
     adv, _ = r_misc.inline_helpers(uf, uf.funcs["mj_advance"])
